@@ -37,6 +37,8 @@ Print Assumptions C08_help_line_roundtrip.
 Check (C08_type_line_roundtrip : forall nm k, mname nm ->
   parse_line (lit "# TYPE " ++ nm ++ [32] ++ type_word k) = Some (LType nm (kind_mtype k))).
 Print Assumptions C08_type_line_roundtrip.
+Check (C08_type_line_matches_samples : forall gb ovs f, emit_kind gb ovs f = type_kind gb ovs f).
+Print Assumptions C08_type_line_matches_samples.
 Check (C08_family_structure : forall rc, wf_rcase rc = true ->
   exists pl, parse_text (render_text true rc) = Some pl /\ family_ok pl = true
     /\ List.length (filter is_type pl) = List.length (fams rc)
@@ -56,5 +58,6 @@ Check (C08_spec_ok_render_sound : forall fx rc o, wf_rcase rc = true -> spec_ok 
     /\ List.length (filter is_sample pl) = expected_samples rc).
 Print Assumptions C08_spec_ok_render_sound.
 Check (C08_example_satisfiable : wf_rcase example_case = true /\ exposition_ok (render_text true example_case) = true
-  /\ exposition_ok (render_text false example_case) = false).
+  /\ exposition_ok (render_text false example_case) = false
+  /\ map (type_kind (gbuckets example_case) (overrides example_case)) (fams example_case) = [KHistogram; KCounter]).
 Print Assumptions C08_example_satisfiable.
